@@ -6,6 +6,10 @@ every keyword *kind* independently in lower, UPPER, Capitalised or mIxEd case
 (full product for programs with few kinds, all single and double deviations
 plus the uniform renderings otherwise) and must parse to the same tree,
 compute the same result and final model, and prebuild to the same instances.
+Keyword operators applied to the result of keyword operators (not empty x,
+not not_empty x, not (cardinality x == 0), ...) are additionally rendered per
+keyword occurrence and compared with the tree / result / instances of their
+all-lower-case spelling.
 '''
 import itertools
 
@@ -20,6 +24,13 @@ ASSUMPTIONS = [
     'fields that carry the keyword text itself (operator, cardinality, boolean literal, self as instance name) are compared '
     'case-insensitively; the normalising accessor .many exactly',
     'prebuilt instances are compared apart from the recorded source text (labels and the action text itself)',
+    'nested keyword operators (a keyword unary operator, `and` or `==` over the result of keyword unary operators; expression trees of '
+    'depth <= 3 on one leaf, plus parenthesised, returned, if / elif / while condition and where-clause contexts) are rendered per keyword '
+    'OCCURRENCE: every occurrence independently lower / UPPER / Capitalised (thorough: + mIxEd) for up to 3 (4) occurrences, otherwise '
+    'uniform, single and pairwise deviations; the oracle is the tree of the all-lower-case spelling of the same program (keyword-carrying '
+    'fields folded), then the tree the program was printed from',
+    'interpreted and prebuilt programs with nested keyword operators are rendered with one occurrence at a time in UPPER and Capitalised '
+    '(prebuild: also pairs of occurrences of the keywords that are handed on as written) on top of the per-kind renderings',
 ]
 STYLES = ['lower', 'upper', 'cap', 'mixed']
 
@@ -45,7 +56,138 @@ def renderings(kinds, full_limit):
 
 
 def layout_for(r):
-    return A.Layout(kwcase=lambda kind, n: r.get(kind, 'lower'))
+    '''r maps a keyword kind ("NOT") or one occurrence of it ("NOT#1": the second NOT of the program, counted over the
+    printed tokens) to a style; the occurrence entry wins.'''
+    return A.Layout(kwcase=lambda kind, n: r.get('%s#%d' % (kind, n), r.get(kind, 'lower')))
+
+
+def keyword_occurrences(p, first_tok=0):
+    '''["KIND#n"] of every keyword token of the printed program from token index first_tok on.'''
+    occ, out = {}, []
+    for i, t in enumerate(p.toks):
+        if t.kw:
+            n = occ.get(t.kw, 0)
+            occ[t.kw] = n + 1
+            if i >= first_tok:
+                out.append('%s#%d' % (t.kw, n))
+    return out
+
+
+def occurrence_renderings(occs, styles, full_limit):
+    '''Per-occurrence renderings: every occurrence independently in every style when there are at most full_limit
+    occurrences; otherwise the uniform renderings, every single occurrence and every pair of occurrences deviating.'''
+    out = []
+    if len(occs) <= full_limit:
+        for combo in itertools.product(['lower'] + list(styles), repeat=len(occs)):
+            out.append(dict((o, st) for o, st in zip(occs, combo) if st != 'lower'))
+        return out
+    out.append({})
+    for st in styles:
+        out.append(dict((o, st) for o in occs))
+        for o in occs:
+            out.append({o: st})
+    for o1, o2 in itertools.combinations(occs, 2):
+        for s1, s2 in itertools.product(styles[:2], repeat=2):
+            out.append({o1: s1, o2: s2})
+    return out
+
+
+def folded_structure(node):
+    '''Dump of a real parse tree without positions, the fields that carry keyword text (operator, cardinality, boolean
+    literal, self as instance name) lower-cased.'''
+    if node is None or isinstance(node, (int, float, bool)):
+        return node
+    if isinstance(node, str):
+        return node
+    if isinstance(node, (list, tuple)):
+        return [folded_structure(x) for x in node]
+    d = [type(node).__name__]
+    for k, v in sorted(vars(node).items()):
+        if k in ('position', 'character_stream'):
+            continue
+        if isinstance(v, str):
+            if k in ('operator', 'cardinality') or (k == 'value' and type(node).__name__ == 'BooleanNode') or \
+                    (k.endswith('variable_name') and v.lower() == 'self'):
+                v = v.lower()
+            d.append((k, v))
+        else:
+            d.append((k, folded_structure(v)))
+    return d
+
+
+# ---------------------------------------------------------------------------
+# nested keyword operators: a keyword operator applied to the result of another one, every keyword OCCURRENCE
+# varied independently; oracle: the same tree as the all-lower-case spelling (and the tree the printer expects)
+# ---------------------------------------------------------------------------
+
+KW_UNARY = ['not', 'empty', 'not_empty', 'cardinality']
+
+
+def nested_operator_programs():
+    '''(name, statements): every expression tree of depth <= 3 over the keyword unary operators, `and` and `==` on one
+    leaf, as the value of an assignment; the unary-over-unary trees also parenthesised, as a returned value, as the
+    condition of if / elif / while and as a where clause.'''
+    x = ('var', 'x')
+    out = []
+    for e in A.expr_trees(3, ['and', '=='], KW_UNARY, [x]):
+        if A.count_nodes(e) >= 3:
+            out.append(('nested', [('assign', ('var', 'r'), e, False)]))
+    for o1 in KW_UNARY:
+        for o2 in KW_UNARY:
+            e = ('un', o1, ('un', o2, x))
+            g = ('un', o1, ('grp', ('un', o2, x)))
+            out.append(('nested_paren', [('assign', ('var', 'r'), g, False)]))
+            out.append(('nested_return', [('return', e)]))
+            out.append(('nested_if', [('if', e, [], [(g, [])], None, [False, False])]))
+            out.append(('nested_while', [('while', e, [('break',)], False)]))
+            out.append(('nested_where', [('selfrom', 'any', 'n', 'A', e, True)]))
+        for o2 in KW_UNARY:
+            for o3 in KW_UNARY[:3]:
+                out.append(('nested_3', [('assign', ('var', 'r'), ('un', o1, ('un', o2, ('un', o3, x))), False)]))
+    return out
+
+
+def nested_parse_task(ctx, task):
+    tier, items = task
+    from bridgepoint import oal
+    styles = STYLES[1:3] if tier == 'quick' else STYLES[1:]
+    for name, stmts in items:
+        p = A.print_program(stmts)
+        occs = keyword_occurrences(p)
+        base_text, _ = A.assemble(p, A.Layout())
+        try:
+            base = folded_structure(oal.parse(base_text))
+        except Exception as e:
+            ctx.violation('c08:parse-nested:lower-case:%s' % type(e).__name__, dict(kind='parse-nested', name=name, stmts=stmts, rendering={}),
+                          '%r does not parse: %s' % (base_text, e))
+            continue
+        for r in occurrence_renderings(occs, styles, 3 if tier == 'quick' else 4):
+            text, spans = A.assemble(p, layout_for(r))
+            ctx.count('parses')
+            ctx.count('nested_parses')
+            case = dict(kind='parse-nested', name=name, stmts=stmts, rendering=r)
+            ut = 'from bridgepoint import oal\noal.parse(%r)   # compare with oal.parse(%r)' % (text, base_text)
+            try:
+                root = oal.parse(text)
+            except Exception as e:
+                ctx.violation('c08:parse-nested:%s' % type(e).__name__, case, '%r does not parse although its lower-case spelling %r does: %s'
+                              % (text, base_text, e), 'same tree as lower case', type(e).__name__, unit_test=ut)
+                continue
+            got = folded_structure(root)
+            if got != base:
+                ctx.violation('c08:parse-nested:tree-differs-from-lower-case', case,
+                              '%r parses to another tree than %r, which differs from it only in the case of keywords' % (text, base_text),
+                              base, got, unit_test=ut)
+                continue
+            diffs = A.compare(root, p.expected, text, spans, positions=False, kwfold=True)
+            if diffs:
+                ctx.violation('c08:parse-nested:tree', case, '%r (and its lower-case spelling) parse to a tree other than the one the '
+                              'program was printed from: %s' % (text, diffs[:3]), None, diffs[:5], unit_test=ut)
+                continue
+            ctx.count('traces')
+            ctx.distinct('parse_cases', (name, repr(stmts), repr(sorted(r.items()))))
+            if r:
+                ctx.distinct('nontrivial', ('parse-nested', name, repr(stmts), repr(sorted(r.items()))))
 
 
 def manys(node, out):
@@ -115,7 +257,27 @@ def interpret_corpus(tier):
                             c04.ASG(V('f'), B(op, left, B('==', F_('nobody', 'N'), I(1))))])
         out.append(setup + [c04.ASG(V('f'), B(op, left, B('==', B('/', I(1), I(0)), I(1))))])
         out.append(setup + [c04.ASG(V('f'), B(op, V('i'), c04.TRUE))])
+    # keyword operators applied to the result of keyword operators (rendered per occurrence by interpret_task)
+    setup = c04.SETUPS[2]
+    nobody = ('selfrom', 'any', 'nobody', 'A', B('==', ('field', ('selected',), 'K'), I(99)), True)
+    a1, as_, f = V('a1'), V('as_'), V('f')
+    for e in (U('not', U('empty', a1)), U('not', U('not_empty', a1)), U('not', U('empty', V('nobody'))), U('not', U('not_empty', V('nobody'))),
+              U('not', U('empty', as_)), U('not', ('grp', U('not_empty', as_))), U('not', U('not', f)), U('not', U('not', U('empty', a1))),
+              U('not', B('==', U('cardinality', as_), I(0))), B('and', U('not', U('empty', a1)), U('not', U('not', f)))):
+        out.append(setup + [nobody, c04.ASG(V('g'), e)])
+        out.append(setup + [nobody, c04.IF(e, [c04.ASG(V('i'), I(5))])])
     return out
+
+
+def has_nested_unary(x, below=False):
+    '''Does the statement contain a keyword unary operator below another one?'''
+    if isinstance(x, (list, tuple)):
+        if len(x) == 3 and x[0] == 'un' and isinstance(x[1], str) and x[1][:1].isalpha():
+            if below:
+                return True
+            return has_nested_unary(x[2], True)
+        return any(has_nested_unary(y, below) for y in x)
+    return False
 
 
 def interpret_task(ctx, task):
@@ -136,6 +298,12 @@ def interpret_task(ctx, task):
             rs.append({k: 'upper'})
             if tier == 'thorough':
                 rs.append({k: 'mixed'})
+        if has_nested_unary(prog[-1]):
+            # every keyword occurrence of the last statement on its own
+            first_tok = len(A.print_program(list(prog[:-1])).toks)
+            for o in keyword_occurrences(A.print_program(list(prog)), first_tok):
+                rs += [{o: st} for st in (('upper', 'cap') if tier == 'quick' else STYLES[1:])]
+            ctx.count('interpret_per_occurrence_programs')
         for r in rs:
             ctx.count('interpret_runs')
             status, _ = c04.check_program(ctx, prog, 'case', layout=layout_for(r), sigprefix='c08:interpret',
@@ -273,10 +441,18 @@ def prebuild_task(ctx, task):
             ctx.count('prebuild_skipped')      # not a supported / name-resolved program for the host
             continue
         rs = [dict((k, st) for k in kinds) for st in STYLES[1:]] + [{k: 'upper'} for k in sorted(kinds)]
+        if len(item) > 3 and item[3] == 'per-occurrence':
+            # every occurrence of a keyword that is handed on as written, one at a time, upper and capitalised
+            from_tok = 0
+            occs = [o for o in keyword_occurrences(p, from_tok) if o.split('#')[0] in H.SPELLED_THROUGH]
+            rs += [{o: st} for o in occs for st in ('upper', 'cap')]
+            if len(occs) <= 6:
+                rs += [{o1: s1, o2: s2} for o1, o2 in itertools.combinations(occs, 2) for s1 in ('upper',) for s2 in ('upper', 'cap')]
+            ctx.count('prebuild_per_occurrence_programs')
         for r in rs:
             text, _ = A.assemble(p, layout_for(r))
             ctx.count('prebuild_runs')
-            case = dict(kind='prebuild', name=name, stmts=stmts, rendering=r, home=home)
+            case = dict(kind='prebuild', name=name, stmts=stmts, rendering=r, home=home, mode=item[3] if len(item) > 3 else None)
             try:
                 with core.time_limit(30):
                     got = H.canonical_prebuild_dump(text, home=home)
@@ -332,6 +508,25 @@ def prebuild_corpus(tier='quick'):
         progs.append(('self_delete', [c04.ASG(V('x'), SELF), ('delete', 'self')], home))
         progs.append(('self_nav', [('selrel', 'many', 'bs', SELF, [('B', 'R1', None)], None), c04.ASG(V('x'), SELF),
                                    ('relate', 'self', 'x', 'R2', ph, None)], home))
+    # keyword operators applied to the result of keyword operators, every occurrence varied on its own
+    a, aset, t = V('a'), V('aset'), V('t')
+    U = lambda op, x: ('un', op, x)
+    nested = [U('not', U('empty', a)), U('not', U('not_empty', a)), U('not', U('empty', aset)), U('not', U('not_empty', aset)),
+              U('not', ('grp', U('empty', a))), U('not', U('not', t)), U('not', U('not', U('empty', a))),
+              U('not', B('==', U('cardinality', aset), I(0))), B('==', U('cardinality', aset), U('cardinality', a)),
+              B('and', U('not', U('empty', a)), U('not_empty', aset)), B('or', U('not', t), U('not', U('not_empty', a))),
+              U('not', B('and', U('empty', a), U('empty', aset)))]
+    for n, e in enumerate(nested):
+        r = H.complete(H.tolist([c04.ASG(V('z'), e)]), 'function')
+        if r is not None:
+            progs.append(('nested_%d' % n, H.tolist(r[0]), 'function', 'per-occurrence'))
+    for n, e in enumerate(nested[:4]):
+        for stmts in ([('if', e, [c04.ASG(V('z'), I(1))], [(U('not', e), [])], None, [False, False])],
+                      [('selfrom', 'many', 'n', 'A', B('and', e, U('not', U('empty', ('selected',)))), True)],
+                      [('return', e)]):
+            r = H.complete(H.tolist(stmts), 'function')
+            if r is not None:
+                progs.append(('nested_ctx_%d' % n, H.tolist(r[0]), 'function', 'per-occurrence'))
     return progs
 
 
@@ -340,13 +535,19 @@ def run(ctx):
     k = ctx.seed % 3
     progs = progs[k:] + progs[:k]
     ctx.pmap(parse_task, [(ctx.tier, c) for c in chunks(progs, 8)])
+    ctx.pmap(nested_parse_task, [(ctx.tier, c) for c in chunks(nested_operator_programs(), 8)])
+    ctx.require(ctx.n('nested_parses') >= 2000, 'too few renderings of nested keyword operators (%d)' % ctx.n('nested_parses'))
     corpus = interpret_corpus(ctx.tier)
     ctx.pmap(interpret_task, [(ctx.tier, c) for c in chunks(corpus, 10)])
     ctx.pmap(operation_task, operation_bodies())
+    ctx.require(ctx.n('interpret_per_occurrence_programs') >= 10, 'too few interpreted programs with nested keyword operators (%d)'
+                % ctx.n('interpret_per_occurrence_programs'))
     ctx.require(ctx.n('operation_runs') >= 50, 'too few operation-body renderings (%d)' % ctx.n('operation_runs'))
     if prebuild_available():
         ctx.pmap(prebuild_task, [(ctx.tier, c) for c in chunks(prebuild_corpus(ctx.tier), 6)])
         ctx.require(ctx.n('prebuild_runs') >= 300, 'too few prebuild renderings (%d)' % ctx.n('prebuild_runs'))
+        ctx.require(ctx.n('prebuild_per_occurrence_programs') >= 20, 'too few prebuilt programs with nested keyword operators (%d)'
+                    % ctx.n('prebuild_per_occurrence_programs'))
     else:
         ctx.notes['prebuild'] = 'prebuild host not available in this revision'
     p = A.print_program(progs[50][1])
@@ -377,6 +578,27 @@ def replay(ctx, case):
         manys(root, ms)
         if [m for m in ms if m[0] != (m[1].lower() == 'many')]:
             ctx.violation('c08:parse:many-accessor', case, '.many disagrees')
+    elif case['kind'] == 'parse-nested':
+        from bridgepoint import oal
+        p = A.print_program(case['stmts'])
+        base_text, _ = A.assemble(p, A.Layout())
+        text, spans = A.assemble(p, layout_for(case['rendering']))
+        try:
+            base = folded_structure(oal.parse(base_text))
+        except Exception as e:
+            ctx.violation('c08:parse-nested:lower-case:%s' % type(e).__name__, case, '%r does not parse: %s' % (base_text, e))
+            return
+        try:
+            root = oal.parse(text)
+        except Exception as e:
+            ctx.violation('c08:parse-nested:%s' % type(e).__name__, case, '%r does not parse: %s' % (text, e))
+            return
+        if folded_structure(root) != base:
+            ctx.violation('c08:parse-nested:tree-differs-from-lower-case', case, '%r parses to another tree than %r' % (text, base_text))
+            return
+        diffs = A.compare(root, p.expected, text, spans, positions=False, kwfold=True)
+        if diffs:
+            ctx.violation('c08:parse-nested:tree', case, 'different tree: %s' % diffs[:3])
     elif case['kind'] == 'interpret':
         c04.check_program(ctx, case['prog'], 'case', layout=layout_for(case['rendering']), sigprefix='c08:interpret',
                           extra_case=dict(kind='interpret', rendering=case['rendering']))
@@ -393,7 +615,7 @@ def replay(ctx, case):
         if got != base:
             ctx.violation('c08:interpret:differs-from-lower-case', case, 'behaves differently from its lower-case rendering', base, got)
     elif case['kind'] == 'prebuild':
-        prebuild_task(ctx, ('thorough', [(case['name'], case['stmts'], case.get('home', 'function'))]))
+        prebuild_task(ctx, ('thorough', [(case['name'], case['stmts'], case.get('home', 'function'), case.get('mode'))]))
 
 
 def coverage(ctx):
@@ -407,6 +629,12 @@ def coverage(ctx):
         distinct_nontrivial=ctx.nd('nontrivial'),
         rule='every program of the corpus under every rendering of the bound; non-trivial = distinct (path, program, rendering) with '
              'at least one keyword kind not in lower case that was compared successfully',
-        bounds=dict(styles=STYLES, full_product_up_to_kinds=3 if ctx.quick else 5, otherwise='uniform + single + double deviations'),
+        nested_operator_parse_renderings=ctx.n('nested_parses'),
+        interpret_per_occurrence_programs=ctx.n('interpret_per_occurrence_programs'),
+        prebuild_per_occurrence_programs=ctx.n('prebuild_per_occurrence_programs'),
+        bounds=dict(styles=STYLES, full_product_up_to_kinds=3 if ctx.quick else 5, otherwise='uniform + single + double deviations',
+                    nested_keyword_operators=dict(unary=KW_UNARY, binary=['and', '=='], expression_depth=3, programs=len(nested_operator_programs()),
+                                                  per_occurrence_styles=STYLES[1:3] if ctx.quick else STYLES[1:],
+                                                  full_product_up_to_occurrences=3 if ctx.quick else 4)),
         exhaustive=not ctx.caps_hit,
     )
